@@ -1,6 +1,7 @@
 package props
 
 import (
+	"sync/atomic"
 	"bytes"
 	"encoding/json"
 	"fmt"
@@ -45,9 +46,18 @@ func (t *trackedRS) Seek(off int64, whence int) (int64, error) {
 	return n, err
 }
 
+// one Sniffer value is reused for every second call of the process (a detector that remembers anything from an
+// earlier input would answer for the wrong one); the other calls get a fresh value
+var sharedSniffer = &formats.Sniffer{}
+var sniffCalls atomic.Int64
+
 func sniffTracked(b []byte) (formats.Format, error, int64) {
 	t := &trackedRS{r: bytes.NewReader(b)}
-	f, err := (&formats.Sniffer{}).SniffReader(t)
+	sn := &formats.Sniffer{}
+	if sniffCalls.Add(1)%2 == 0 {
+		sn = sharedSniffer
+	}
+	f, err := sn.SniffReader(t)
 	return f, err, t.off
 }
 
